@@ -175,12 +175,11 @@ def rule_side_channel(ctx):
                             if k.arg and k.arg not in at:
                                 written.setdefault(k.arg, []).append((st.name, {cls}, n))
     # readers in _execute: <root>.args.get("k") with k undeclared everywhere
-    ex = prog.fn("cursor", "FakeSnowflakeCursor._execute")
-    root = ex.args.args[1].arg
     read: dict[str, ast.AST] = {}
-    for n in ast.walk(ex):
+    cur_mod = prog.mod("cursor")
+    for n in [x for f_ in cur_mod.functions.values() for x in ast.walk(f_)]:
         if isinstance(n, ast.Call) and isinstance(n.func, ast.Attribute) and n.func.attr == "get" and isinstance(n.func.value, ast.Attribute) \
-                and n.func.value.attr == "args" and isinstance(n.func.value.value, ast.Name) and n.func.value.value.id == root \
+                and n.func.value.attr == "args" and isinstance(n.func.value.value, ast.Name) \
                 and n.args and isinstance(n.args[0], ast.Constant):
             k = n.args[0].value
             if k in written or not any(k in (v["arg_types"] or []) for v in sg.classes.values()):
